@@ -1663,7 +1663,10 @@ class Union(OR):
         self._eval_parent_ = parent
 
         yield from self.evaluate_left(sources)
-        yield from self.evaluate_right(sources)
+        # the second pass adds the bindings for which the right operand holds on its own; a false result of the
+        # right operand alone says nothing about the disjunction (the left operand may hold) and the first pass
+        # already yields the bindings for which both operands are false.
+        yield from filter(lambda v: v.is_true, self.evaluate_right(sources))
 
 
 @dataclass(eq=False, repr=False)
